@@ -63,6 +63,21 @@ def gen_model(rng):
             name = pool.pop()
             ns['aliases'].append({'name': name, 'type': typ(), 'doc': rng.choice([None, 'alias doc'])})
             decl.append((nsname, name, 'alias'))
+        for _ in range(rng.randrange(0, 3)):
+            name = pool.pop()
+            closed = rng.random() < 0.4
+            parent = None
+            cands = [u for u in ns['unions'] if u['closed'] or not closed]
+            # a closed union cannot extend an open one
+            if cands and rng.random() < 0.35:
+                parent = rng.choice(cands)['name']
+            tags = []
+            for i in range(rng.randrange(1, 4)):
+                t = None if rng.random() < 0.5 else typ()
+                tags.append({'name': '%s_t%d' % (name.lower(), i), 'type': t, 'nullable': t is not None and rng.random() < 0.2,
+                             'doc': rng.choice([None, 'tag doc'])})
+            ns['unions'].append({'name': name, 'closed': closed, 'parent': parent, 'tags': tags, 'doc': None})
+            decl.append((nsname, name, 'union'))
         for _ in range(rng.randrange(1, 4)):
             name = pool.pop()
             parent = None
@@ -79,25 +94,15 @@ def gen_model(rng):
                                'Float32': '2.5', 'Boolean': 'true'}.get(t['name'])
                     if t['name'] == 'String' and t['params'].get('max_length') == 8:
                         default = '"d"'
+                if not nullable and t['k'] == 'ref' and t.get('kind') == 'union' and rng.random() < 0.6:
+                    # a union-typed field may default to a void tag of the union, own or inherited
+                    voids = _void_tags(model, ns, t)
+                    if voids:
+                        default = rng.choice(voids)
                 fields.append({'name': '%s_f%d' % (name.lower(), i), 'type': t, 'nullable': nullable, 'default': default,
                                'doc': rng.choice([None, 'field doc %d' % i])})
             ns['structs'].append({'name': name, 'parent': parent, 'fields': fields, 'doc': rng.choice([None, 'struct doc'])})
             decl.append((nsname, name, 'struct'))
-        for _ in range(rng.randrange(0, 3)):
-            name = pool.pop()
-            closed = rng.random() < 0.4
-            parent = None
-            cands = [u for u in ns['unions'] if u['closed'] or not closed]
-            # a closed union cannot extend an open one
-            if cands and rng.random() < 0.35:
-                parent = rng.choice(cands)['name']
-            tags = []
-            for i in range(rng.randrange(1, 4)):
-                t = None if rng.random() < 0.5 else typ()
-                tags.append({'name': '%s_t%d' % (name.lower(), i), 'type': t, 'nullable': t is not None and rng.random() < 0.2,
-                             'doc': rng.choice([None, 'tag doc'])})
-            ns['unions'].append({'name': name, 'closed': closed, 'parent': parent, 'tags': tags, 'doc': None})
-            decl.append((nsname, name, 'union'))
         for i in range(rng.randrange(0, 4)):
             rname = rng.choice(['get', 'put', 'list_all', 'zap'])
             version = rng.choice([1, 1, 2, 3])
@@ -117,6 +122,21 @@ def gen_model(rng):
                                  'deprecated': rng.random() < 0.2, 'attrs': attrs, 'doc': rng.choice([None, 'route doc'])})
         model['namespaces'].append(ns)
     return model
+
+
+def _void_tags(model, cur_ns, ref):
+    """the void tags of the referenced union, along its parent chain"""
+    for ns in model['namespaces'] + [cur_ns]:
+        if ns['name'] != ref['ns']:
+            continue
+        by = dict((u['name'], u) for u in ns['unions'])
+        u = by.get(ref['name'])
+        out = []
+        while u is not None:
+            out.extend(t['name'] for t in u['tags'] if t['type'] is None)
+            u = by.get(u['parent']) if u['parent'] else None
+        return out
+    return []
 
 
 # ---------------------------------------------------------------- rendering
@@ -235,6 +255,8 @@ def _default_text(f):
     if not f.has_default:
         return None
     d = f.default
+    if hasattr(d, 'tag_name'):
+        return d.tag_name
     if isinstance(d, bool):
         return 'true' if d else 'false'
     if isinstance(d, str):
